@@ -36,14 +36,15 @@ import (
 // reported by the enumeration driver as a crash of that case.
 
 type ConcCase struct {
-	Cmd1     string `json:"cmd1"`           // command of session 1 (selected INBOX)
-	Cmd2     string `json:"cmd2,omitempty"` // command of session 2 (selected INBOX), optional
-	Conn     string `json:"conn,omitempty"` // connector update, optional: created | deleted | mboxdeleted
-	Teardown string `json:"teardown"`       // drop1 | drop2 | logout2 | removeuser | close
-	Bound    int    `json:"bound"`          // preemption bound (-1: unbounded)
-	Pipe     bool   `json:"pipe,omitempty"` // two NOOPs follow cmd1 in the same segment
-	Free     bool   `json:"free,omitempty"` // no gating: all parties run freely under the Go scheduler (race-detector pass)
-	Hold     bool   `json:"hold,omitempty"` // state updates are held back and handed to a session when the explorer says so
+	Cmd1     string `json:"cmd1"`              // command of session 1 (selected INBOX)
+	Cmd2     string `json:"cmd2,omitempty"`    // command of session 2 (selected INBOX), optional
+	Conn     string `json:"conn,omitempty"`    // connector update, optional: created | deleted | mboxdeleted
+	Teardown string `json:"teardown"`          // drop1 | drop2 | logout2 | removeuser | close
+	Bound    int    `json:"bound"`             // preemption bound (-1: unbounded)
+	MaxSec   int    `json:"max_sec,omitempty"` // stop exploring the case after this many seconds (reported as capped)
+	Pipe     bool   `json:"pipe,omitempty"`    // two NOOPs follow cmd1 in the same segment
+	Free     bool   `json:"free,omitempty"`    // no gating: all parties run freely under the Go scheduler (race-detector pass)
+	Hold     bool   `json:"hold,omitempty"`    // state updates are held back and handed to a session when the explorer says so
 }
 
 func (c ConcCase) String() string {
@@ -689,6 +690,7 @@ func concCall(raw json.RawMessage) (any, error) {
 		n, unstable, maxDecisions, diverged := 0, 0, 0, 0
 		seen := map[string]bool{}
 		capped := false
+		started := time.Now()
 		for len(stack) > 0 {
 			it := stack[len(stack)-1]
 			prefix := it.choices
@@ -754,7 +756,7 @@ func concCall(raw json.RawMessage) (any, error) {
 					pre++
 				}
 			}
-			if n >= 3000 {
+			if n >= 3000 || (cs.MaxSec > 0 && time.Since(started) > time.Duration(cs.MaxSec)*time.Second) {
 				capped = true
 				break
 			}
